@@ -38,6 +38,8 @@ type Config struct {
 	Verbose  bool
 	MaxSamples  int
 	SampleEvery int
+	reg         *VarRegistry
+	AllEvents   bool // keep one event per (kind, label, free choices) instead of per (kind, label)
 }
 
 type RunStats struct {
@@ -233,14 +235,18 @@ func (i *interpreter) stack() []string {
 
 func (i *interpreter) modelMap(m Model) map[string]uint64 {
 	out := map[string]uint64{}
-	for k, v := range i.tt.vars {
-		out[v.name] = m.get(uint64(k)) & maskB(int(v.w))
+	for _, v := range i.tt.vars {
+		out[v.name] = m.get(v.val) & maskB(int(v.w))
 	}
 	return out
 }
 
 func (i *interpreter) raise(kind, label, msg string, m Model) {
-	ev := Event{Kind: kind, Label: label, Msg: msg, Model: i.modelMap(m), Stack: i.stack(),
+	st := i.stack()
+	if kind == "panic" && i.panicStack != nil {
+		st = i.panicStack
+	}
+	ev := Event{Kind: kind, Label: label, Msg: msg, Model: i.modelMap(m), Stack: st,
 		Decisions: append([]int64{}, i.taken...), Choices: i.choiceMap(), Harness: i.cfg.Entry, Args: i.cfg.Args}
 	i.events = append(i.events, ev)
 }
@@ -407,6 +413,7 @@ func (i *interpreter) startPath(w workItem) {
 	i.summ = nil
 	i.pathReach = map[string]int{}
 	i.builders = nil
+	i.panicStack = nil
 }
 
 func (i *interpreter) choiceMap() map[string]int {
@@ -559,6 +566,7 @@ func Explore(cfg *Config) *Result {
 	if cfg.SampleEvery == 0 {
 		cfg.SampleEvery = 17
 	}
+	cfg.reg = NewVarRegistry()
 	q := &sharedQueue{}
 	q.cond = sync.NewCond(&q.mu)
 	q.items = []workItem{{}}
@@ -613,6 +621,9 @@ func Explore(cfg *Config) *Result {
 				res.PathsByEnd[end]++
 				for _, ev := range i.events {
 					k := ev.Kind + "|" + ev.Label
+					if cfg.AllEvents {
+						k += fmt.Sprint(ev.Choices)
+					}
 					if !seenEv[k] {
 						seenEv[k] = true
 						ev.Inputs = i.renderInputs(ev.Model)
